@@ -1609,8 +1609,8 @@ def g_gridder(I, rng):
         for j in range(nvis):
             r += a[j] * np.exp(2j * np.pi * (uv[j, 0] * lgrid[:, None] + uv[j, 1] * mgrid[None, :]))
         return r.real
-    return dict(op=op, desc=desc, ref=ref, cap=3, kinds={TIMES: "c", ADJ: "f"}, rtol=500 * eps,
-                ref_rtol=500 * eps, keep=[("uv", uv)], nontrivial=True)
+    return dict(op=op, desc=desc, ref=ref, cap=3, kinds={TIMES: "c", ADJ: "f"}, rtol=max(1e-9, 500 * eps),
+                ref_rtol=max(1e-9, 500 * eps), keep=[("uv", uv)], nontrivial=True)
 
 
 @reg("Nufft")
@@ -1637,8 +1637,8 @@ def g_nufft(I, rng):
             ph = sum(ks[b] * cc[j, b] for b in range(nd))
             r += a[j] * np.exp(1j * ph)
         return r.real
-    return dict(op=op, desc=desc, ref=ref, cap=3, kinds={TIMES: "c", ADJ: "f"}, rtol=500 * eps,
-                ref_rtol=500 * eps, keep=[("pos", pos)], nontrivial=True)
+    return dict(op=op, desc=desc, ref=ref, cap=3, kinds={TIMES: "c", ADJ: "f"}, rtol=max(1e-9, 500 * eps),
+                ref_rtol=max(1e-9, 500 * eps), keep=[("pos", pos)], nontrivial=True)
 
 
 def _segment_lengths(shape, dist, start, end):
